@@ -182,7 +182,15 @@ Definition compute_append_gen (clamp : bool) (c : cfg) (s : emt) (st : stream) :
   recs <- cut_all st (snd r) ;;
   EOk (fst r, recs).
 
-(* one ProcessSegments cycle of one channel with EdgeMulti on *)
+(* TriggerData, step 1: "Edge Multi triggers are exclusive of all other types" — when EdgeMulti is set the
+   edge / level / auto passes do not run, whatever their own flags (EdgeTrigger, LevelTrigger, AutoTrigger) say;
+   with EdgeMulti off the other passes run (C02's model, not this one: None). *)
+Record other_flags := { o_edge : bool; o_level : bool; o_auto : bool }.
+Definition trigger_data_gen (clamp : bool) (c : cfg) (emulti : bool) (o : other_flags) (s : emt) (st : stream)
+  : eres (option (emt * list record)) :=
+  if emulti then r <- compute_append_gen clamp c s st ;; EOk (Some r) else EOk None.
+
+(* one ProcessSegments cycle of one channel with EdgeMulti on (the EdgeMulti branch of TriggerData) *)
 Definition step_gen (clamp : bool) (c : cfg) (st : stream) (s : emt) (sg : segment) : eres (stream * emt * list record) :=
   let st1 := append st sg in
   r <- compute_append_gen clamp c s st1 ;;
